@@ -30,6 +30,11 @@ SEEDED = os.path.join(VERIF, 'seeded')
 REGR = os.path.join(VERIF, 'regressions')
 
 
+# behaviour-preserving refactorings whose shape the analysis does not cover:
+# the honest outcome is ANALYSIS-ERROR (never a VIOLATION); DESIGN.md 9.5b
+KNOWN_UNSUPPORTED = {}
+
+
 def _variants(prop):
     out = []
     # which recorded change each property's rules are expected to report
@@ -151,6 +156,9 @@ def run(prop, rep, repo):
         else:
             if outcome == 'silent':
                 summary['benign_silent'] += 1
+            elif outcome == 'inconclusive' and name in KNOWN_UNSUPPORTED:
+                summary.setdefault('benign_unsupported', []).append(
+                    f'{name}: {KNOWN_UNSUPPORTED[name]}')
             else:
                 summary['benign_fired'].append(f'{name}: {outcome} {info}')
     rep.extra['selftest'] = summary
